@@ -68,8 +68,8 @@ class Molecule(BigSMILESbase):
                         other_bd = self._elements[-1].bond_descriptors[-1]
                     if len(pre_stochastic.bond_descriptors) > 0:
                         found_compatible = False
-                        for bd in pre_stochastic.bond_descriptors[0]:
-                            if bd.is_compatible(other_bd):
+                        for bd in pre_stochastic.bond_descriptors:
+                            if bd.generate_string(False) == other_bd.generate_string(False):
                                 found_compatible = True
                         if not found_compatible:
                             raise RuntimeError(
